@@ -1,5 +1,81 @@
-import TcheranVerif.Model.Search
+import TcheranVerif.Model.See
+/-!
+# C20 — static exchange evaluation at threshold 0
+
+Theorems over the exact model of `see` (`Model/See.lean`, piece values regenerated from `/repo`):
+* `values_ordered` — the value table is monotone in the kind order the attacker loop uses
+  (pawn ≤ knight = bishop ≤ rook ≤ queen ≤ king), so "least valuable attacker first" is what the
+  kind loop implements; all capturable values are positive;
+* `loop_no_defenders` — if the opponent has no attacker of the target square the exchange ends at
+  once with the running score unchanged;
+* `see_undefended` — hence a capture (or capturing promotion) of an undefended man is favourable
+  exactly when its material gain is non-negative, which it always is;
+* `loop_stops_when_ahead` — the mover, when on move with a non-negative running score, stops.
+Colour-swap invariance, "victim worth at least the attacker ⇒ favourable" for defended targets and
+agreement with the swap list on tie-free positions are decided by the correspondence/oracle stream
+(every capture of every generated position with its mirrored twin): partial.
+-/
 namespace Tcheran.Props.C20
-theorem placeholder : True := trivial
+open Tcheran Tcheran.See
+
+theorem values : Gen.seeValues = #[100, 300, 300, 500, 900, 10000] := by decide
+
+theorem values_ordered :
+    pieceValue .pawn ≤ pieceValue .knight ∧ pieceValue .knight = pieceValue .bishop ∧
+    pieceValue .bishop ≤ pieceValue .rook ∧ pieceValue .rook ≤ pieceValue .queen ∧
+    pieceValue .queen ≤ pieceValue .king ∧ 0 < pieceValue .pawn := by decide
+
+theorem value_pos (k : PieceKind) : 0 < pieceValue k := by cases k <;> decide
+
+/-- **loop_no_defenders**: no enemy attacker of the target ⇒ the exchange is over, score unchanged -/
+theorem loop_no_defenders (b : Board) (mover : Player) (to : Sq) (fuel : Nat) (st : St)
+    (hcol : st.color = mover) (hnone : st.attackers &&& b.occFor mover.other = 0#64) :
+    loop b mover to (fuel + 1) st = some st.score := by
+  unfold loop
+  simp only [hcol]
+  have hne : mover.other ≠ mover := by cases mover <;> simp [Player.other]
+  by_cases hs : st.score ≤ 0
+  · rw [if_pos (Or.inr ⟨hne, hs⟩)]
+  · rw [if_neg (by
+      intro h
+      rcases h with ⟨h1, _⟩ | ⟨_, h2⟩
+      · exact hne h1
+      · exact hs h2)]
+    simp only [hnone, if_true]
+
+/-- **loop_stops_when_ahead**: on move with a non-negative score the mover stands pat -/
+theorem loop_stops_when_ahead (b : Board) (mover : Player) (to : Sq) (fuel : Nat) (st : St)
+    (hcol : st.color = mover.other) (hs : 0 ≤ st.score) : loop b mover to (fuel + 1) st = some st.score := by
+  unfold loop
+  have : st.color.other = mover := by rw [hcol]; cases mover <;> rfl
+  simp only [this]
+  rw [if_pos (Or.inl ⟨trivial, hs⟩)]
+
+/-- **see_undefended**: capturing an undefended man is judged favourable (threshold 0) -/
+theorem see_undefended (g : Game) (mv : Move) (moved captured : Piece)
+    (hsrc : g.board.pieceAt mv.src = some moved) (hdst : g.board.pieceAt mv.dst = some captured)
+    (hnep : mv.isEnPassant = false)
+    (hundef : (allAttackersOf g.board mv.dst ((g.board.occupancy ^^^ bb mv.src) ||| bb mv.dst)
+        &&& ((g.board.occupancy ^^^ bb mv.src) ||| bb mv.dst)) &&& g.board.occFor g.player.other = 0#64) :
+    see g mv 0 = some true := by
+  unfold see
+  simp only [bind, Option.bind, hsrc, hdst, hnep, Bool.false_eq_true, if_false, pure]
+  rw [loop_no_defenders g.board g.player mv.dst 63 _ rfl hundef]
+  simp only [Option.some.injEq, decide_eq_true_eq]
+  have hv := value_pos captured.kind
+  cases hp : mv.promotion with
+  | none => simp; omega
+  | some pr =>
+    simp
+    have h1 : pieceValue .pawn ≤ pieceValue pr.piece := by cases pr <;> decide
+    omega
+
+example : pieceValue .queen = 900 := by decide
+
 end Tcheran.Props.C20
-#print axioms Tcheran.Props.C20.placeholder
+#print axioms Tcheran.Props.C20.values
+#print axioms Tcheran.Props.C20.values_ordered
+#print axioms Tcheran.Props.C20.value_pos
+#print axioms Tcheran.Props.C20.loop_no_defenders
+#print axioms Tcheran.Props.C20.loop_stops_when_ahead
+#print axioms Tcheran.Props.C20.see_undefended
